@@ -94,6 +94,7 @@ Section Delimited.
   (* counted_array *)
   Variable count : str -> option (nat * str).
   Variable item : str -> option (A * str).
+  Variable skipw : str -> str.
 
   Lemma items_exact_length : forall n s xs s', items_exact A item n s = Some (xs, s') -> length xs = n.
   Proof.
@@ -104,21 +105,28 @@ Section Delimited.
       injection H as <- _. simpl. f_equal. eapply IHn; eauto.
   Qed.
 
+  Lemma ca_body_length : forall n s xs s', ca_body A item skipw n s = Some (xs, s') -> length xs = n.
+  Proof.
+    intros [|n] s xs s' H.
+    - simpl in H. injection H as <- _. reflexivity.
+    - eapply items_exact_length. exact H.
+  Qed.
+
   Theorem counted_array_spec : forall body0 s items rest body,
-    counted_array A count item body0 s = (Some (items, rest), body) ->
+    counted_array A count item skipw body0 s = (Some (items, rest), body) ->
     exists n s1, count s = Some (n, s1) /\ length items = n /\ body = Some n /\
-                 items_exact A item n s1 = Some (items, rest).
+                 ca_body A item skipw n s1 = Some (items, rest).
   Proof.
     intros body0 s items rest body H. unfold counted_array in H.
     destruct (count s) as [[n s1]|] eqn:C; [|discriminate].
     unfold ca_items in H. injection H as H <-. exists n, s1. split; auto. split; [|split; auto].
-    eapply items_exact_length; eauto.
+    eapply ca_body_length; eauto.
   Qed.
 
   (* fewer than n items after the count: the parse fails (no partial array is returned) *)
   Theorem counted_array_short : forall body0 s n s1,
-    count s = Some (n, s1) -> items_exact A item n s1 = None ->
-    fst (counted_array A count item body0 s) = None.
+    count s = Some (n, s1) -> ca_body A item skipw n s1 = None ->
+    fst (counted_array A count item skipw body0 s) = None.
   Proof. intros. unfold counted_array. rewrite H. unfold ca_items. simpl. exact H0. Qed.
 End Delimited.
 
@@ -196,7 +204,8 @@ Section Nested.
         cbn [skip_ws]. rewrite Hc, N.eqb_refl. reflexivity.
       + intros l rest sp Hsp Hwf Hf. destruct l as [|t l'].
         * destruct Hsp as [-> | [_ Hne]]; [|congruence]. unfold tail_of. cbn [app join_items parse_items].
-          rewrite (pn_not_opener f [] c rest) by auto. cbn [app skip_ws]. rewrite Hc.
+          pose proof (pn_not_opener f [] c rest eq_refl Hc Hoc) as PN. cbn [app] in PN. rewrite PN.
+          cbn [skip_ws]. rewrite Hc.
           cbn [span_word]. rewrite wc_c. reflexivity.
         * assert (Hsp' : forallb is_ws sp = true) by (destruct Hsp as [-> | [-> _]]; reflexivity).
           cbn [forallb] in Hwf. apply andb_true_iff in Hwf. destruct Hwf as [Wt Wl].
@@ -213,10 +222,14 @@ Section Nested.
              destruct (wc_props x Wx) as (X1 & X2 & X3).
              rewrite <- app_comm_cons. rewrite pn_not_opener by auto. rewrite skip_ws_prefix by auto.
              rewrite app_comm_cons. rewrite span_word_app; [| simpl; rewrite Wx, Ww'; reflexivity | apply tail_head_not_wc].
-             rewrite Tl. reflexivity.
+             match goal with |- context [parse_items f o c ?X] =>
+               replace (parse_items f o c X) with (l', c :: rest) by (symmetry; exact Tl) end.
+             reflexivity.
           -- (* a nested list *)
              rewrite IHn; auto; [|unfold lsize in Hf; simpl in Hf; simpl; lia].
-             rewrite Tl. reflexivity.
+             match goal with |- context [parse_items f o c ?X] =>
+               replace (parse_items f o c X) with (l', c :: rest) by (symmetry; exact Tl) end.
+             reflexivity.
   Qed.
 
   Theorem nested_canonical : forall l rest f, forallb (wf_tree o c) l = true -> tsize (NList l) <= f ->
@@ -235,22 +248,24 @@ Section Nested.
 
   Lemma skip_ws_split : forall s, exists sp, s = sp ++ skip_ws s /\ filter isb sp = [].
   Proof.
-    induction s as [|x s IH]; simpl.
+    induction s as [|x s IH].
     - exists []. auto.
-    - destruct (is_ws x) eqn:E.
-      + destruct IH as (sp & E1 & E2). exists (x :: sp). simpl. rewrite (ws_not_bracket x E). split; congruence.
+    - cbn [skip_ws]. destruct (is_ws x) eqn:E.
+      + destruct IH as (sp & E1 & E2). exists (x :: sp). cbn [app filter]. rewrite (ws_not_bracket x E).
+        split; [f_equal; exact E1 | exact E2].
       + exists []. auto.
   Qed.
 
   Lemma span_word_split : forall s w r, span_word o c s = (w, r) ->
     s = w ++ r /\ filter isb w = [] /\ forallb wc w = true.
   Proof.
-    induction s as [|x s IH]; simpl; intros w r H.
-    - injection H as <- <-. auto.
-    - destruct (wc x) eqn:E.
+    induction s as [|x s IH]; intros w r H.
+    - cbn [span_word] in H. injection H as <- <-. auto.
+    - cbn [span_word] in H. destruct (wc x) eqn:E.
       + destruct (span_word o c s) as [w' r'] eqn:S. injection H as <- <-.
-        destruct (IH w' r' eq_refl) as (E1 & E2 & E3). simpl. destruct (wc_props x E) as (_ & X2 & X3).
-        unfold is_bracket. rewrite X2, X3. simpl. rewrite E, E3. repeat split; congruence.
+        destruct (IH w' r' eq_refl) as (E1 & E2 & E3). destruct (wc_props x E) as (_ & X2 & X3).
+        cbn [app filter forallb]. unfold is_bracket at 1. rewrite X2, X3. cbn [orb]. rewrite E, E3, E2.
+        split; [f_equal; exact E1 | split; reflexivity].
       + injection H as <- <-. auto.
   Qed.
 
@@ -290,7 +305,9 @@ Section Nested.
              exists (sp ++ (x :: w') ++ cons2). split.
              ++ rewrite Es, E1, E2. rewrite <- !app_assoc. reflexivity.
              ++ split; [rewrite !filter_app, Fs, F1, F2; reflexivity|].
-                cbn [forallb wf_tree]. rewrite W1, W2. reflexivity.
+                change (forallb (wf_tree o c) (NWord (x :: w') :: ts))
+                  with (wf_tree o c (NWord (x :: w')) && forallb (wf_tree o c) ts).
+                rewrite W2. cbn [wf_tree]. rewrite W1. reflexivity.
   Qed.
 
   (* the bracket skeleton of any tree is a balanced word *)
